@@ -220,6 +220,16 @@ class Check:
                     pb = None
                 else:
                     pb = build_targets([prop_file[:-2] + '.vo'], locked=True)
+                    if pb.ok and self.tier == 'thorough' and not os.environ.get('VERIF_NO_COQCHK'):
+                        # independent re-check of the compiled closure (same lock hold: the .vo files cannot change under it)
+                        t0 = time.time()
+                        cc = subprocess.run(['timeout', '2400', 'coqchk', '-o', '-Q', COQ, 'NB', 'NB.' + prop_file[:-2].replace('/', '.')],
+                                            capture_output=True, text=True)
+                        tail = (cc.stdout + cc.stderr)[-1500:]
+                        m = re.search(r'\* Axioms:(.*?)\n\s*\n\* ', tail, re.S)
+                        self.coqchk = {'ok': cc.returncode == 0 and 'Modules were successfully checked' in tail,
+                                       'axioms': ' '.join(m.group(1).split()) if m else None, 'seconds': int(time.time() - t0)}
+                        if not self.coqchk['ok']: self.coqchk['tail'] = tail[-500:]
             finally:
                 fcntl.flock(lock, fcntl.LOCK_UN); lock.close()
             if pb is not None and not pb.ok:
@@ -250,6 +260,12 @@ class Check:
                     tb.append('%s: %s' % (t, 'closed under the global context' if not a else 'axioms ' + ', '.join(a)))
                     if extra:
                         self.broken_obligation('axiom:' + t, ', '.join(extra)); ok = False
+        ck = getattr(self, 'coqchk', None)
+        if ck is not None:
+            self.cov['coqchk'] = ck
+            tb.append('coqchk -o on the compiled closure: %s; axioms: %s' % ('modules successfully checked' if ck['ok'] else 'FAILED', ck.get('axioms')))
+            if not ck['ok']:
+                self.broken_obligation('coqchk', ck.get('tail', '')); ok = False
         self.cov['theorems'] = theorems
         self.cov['discharged'] = n if ok else max(0, n - len(self.broken))
         self.cov['trusted_base'] = tb
